@@ -25,6 +25,24 @@ LAYOUT_COQ = {"models_dropped": "LModelsDropped", "models_wrong": "LModelsWrong"
               "models_view": "LModelsView",
               "meta_dropped": "LMetaDropped", "meta_wrong": "LMetaWrong", "meta_emptied": "LMetaEmptied"}
 LAYOUT_COQ.update({k: "LModelsExtra" for k in RETYPE_KINDS})
+# the expected layout with ONE column declared differently (every column in turn; other affinity, NOT NULL, DEFAULT)
+_COLS = {"models": [("txt_hash", "TEXT"), ("pymoca_version", "TEXT"), ("data", "BLOB"), ("last_hit", "TIMESTAMP INTEGER")],
+         "metadata": [("key", "TEXT"), ("value", "TEXT")]}
+RETYPE_POOL = []
+for _t, _cs in _COLS.items():
+    for _c, _d in _cs:
+        for _decl in ["TEXT", "BLOB", "INTEGER", "REAL", "", _d + " NOT NULL", _d + " DEFAULT 0"] + \
+                (["DATETIME TEXT", "VARCHAR(32)", "INTEGER"] if _c == "last_hit" else []):
+            if _decl != _d and "retype:%s:%s:%s" % (_t, _c, _decl) not in RETYPE_POOL:
+                RETYPE_POOL.append("retype:%s:%s:%s" % (_t, _c, _decl))
+
+
+def layout_coq(kind):
+    if kind.startswith("retype:models"):
+        return "LModelsExtra"       # usable by SELECT/INSERT, rejected by the layout check
+    if kind.startswith("retype:metadata"):
+        return "LMetaWrong"
+    return LAYOUT_COQ[kind]
 FILE_KINDS = ["delete", "zero", "truncate", "garbage", "directory"]
 BREAKING = ({("layout", "models_dropped"), ("layout", "models_wrong"), ("layout", "models_view")}
             | {("file", k) for k in FILE_KINDS})
@@ -276,7 +294,7 @@ def gen_history(rng, texts, nops, with_locks=False):
             ti = rng.choice(parsed) if parsed else rng.randrange(nt)
             ops.append(["entry", ti, rng.choice(ENTRY_KINDS), rng.randrange(100000)])
         elif x < 0.935:
-            ops.append(["layout", rng.choice(LAYOUT_KINDS)])
+            ops.append(["layout", rng.choice(RETYPE_POOL) if rng.random() < 0.3 else rng.choice(LAYOUT_KINDS)])
         elif x < 0.95 and with_locks:
             ops.append(["lock", rng.choice(LOCK_MODES)])
         else:
@@ -304,6 +322,8 @@ def corpus(texts):
             hs.append([P(g), [fam, k], ["reload"], P(g), P(b), P(g)])
             hs.append([[fam, k], P(g), P(g)])
             hs.append([P(g), ["reload"], [fam, k], P(g2), P(g)])
+    for k in RETYPE_POOL:     # a pre-existing database that differs from the expected layout in ONE column declaration
+        hs.append([P(g), P(g2), ["advance", 3 * DAY], ["layout", k], ["reload"], P(g, 2), P(g2, 2), P(g, 2, 1)])
     for mode in ("reserved", "exclusive"):     # another connection holds a lock during the calls
         hs.append([P(g), P(g2), ["lock", mode], P(g), P(g, 30, 1), P(2), P(b), ["reload"], P(g), P(g2, 30, 1),
                    ["lock", "release"], P(g), P(2), P(g2)])
@@ -323,6 +343,25 @@ def corpus(texts):
 # ---------------------------------------------------------------------------
 # property oracle on the implementation (independent of the Coq model)
 # ---------------------------------------------------------------------------
+def startup_facts(lay, ref, op, cur_ver, clock_us):
+    if "models" not in ref:
+        return ("no-reference-layout", "no reference layout could be obtained from a fresh database: %s" % ref.get("error"))
+    for t in ("models", "metadata"):
+        if lay.get(t) is not None and lay[t] != ref[t]:
+            diff = [(a, b) for a, b in zip(lay[t], ref[t]) if a != b] or [(lay[t], ref[t])]
+            return ("layout-not-restored", "table %s still has a layout other than the one a fresh cache database gets "
+                    "(PRAGMA table_info: %s, expected %s)" % (t, diff[0][0], diff[0][1]))
+    cutoff = clock_us - exp_us(op[2])
+    for ti, ver, ty, lh in lay.get("rows") or []:
+        if ty != "integer":
+            return ("lasthit-not-integer", "a stored last_hit has SQLite type %s" % ty)
+        mine = ti == op[1] and ver == "0.0.%d+verif" % cur_ver      # stored / refreshed by this very call
+        if lh is not None and lh < cutoff and not mine:
+            return ("expired-entry-not-pruned", "the row of text %d (%s) has last_hit %d us, older than the cut-off %d us"
+                    % (ti, ver, lh, cutoff))
+    return None
+
+
 def judge(case, res):
     """None if the property holds on this history, else (tag, description, op index)."""
     if "obs" not in res:
@@ -336,15 +375,22 @@ def judge(case, res):
     parsed_under = set()      # (text, version) pairs parsed so far with caching enabled
     none_injected = set()
     lasthit_text_live = False
+    clock_us = 0
+    lock_held = False
+    ref = res.get("reference_layout") or {}
     for i, (op, ob) in enumerate(zip(case["ops"], res["obs"])):
         k = op[0]
+        if k == "file":
+            lock_held = False       # the harness lets go of its lock before it replaces the file
         if k == "reload" or (k == "file" and op[1] == SWAP):
             initialized, fault_since, lasthit_text_live = False, False, False
         elif k == "setver":
             clean = not op[2]
             cur_ver = op[1]
         elif k == "lock":
-            pass
+            lock_held = ob.get("applied") == "ok"
+        elif k == "advance":
+            clock_us += int(op[1])
         elif (k, op[1]) in BREAKING and k in ("layout", "file"):
             if initialized:
                 fault_since = True
@@ -377,6 +423,13 @@ def judge(case, res):
                             "although no text with this tree was parsed under that version in this history (entry "
                             "of another version served)" % (i, op[1], cur_ver), i)
                 parsed_under.add((sig[op[1]], cur_ver))
+                lay = ob.get("layout")
+                if not initialized and not lock_held and isinstance(lay, dict) and not lay.get("view"):
+                    # this parse ran the once-per-process start-up block on a plain database file: afterwards the layout
+                    # is exactly the one this implementation creates, last_hit values are integers, expired rows are gone
+                    why = startup_facts(lay, ref, op, cur_ver, clock_us)
+                    if why:
+                        return (why[0], "op %d: after the start-up check %s" % (i, why[1]), i)
                 initialized, fault_since = True, False
         st = ob.get("store")
         if isinstance(st, list):
@@ -458,9 +511,11 @@ def encode_case(case, res):
         elif k == "advance":
             ops.append("Advance %s" % cq_Z(op[1]))
         elif k == "entry":
+            if ob.get("applied") != "ok":
+                continue            # the UPDATE did not go through (no usable table, NOT NULL constraint): nothing happened
             ops.append("CorruptEntry %s %s" % (cq_nat(op[1]), enc_blob(ob["blob"])))
         elif k == "layout":
-            ops.append("CorruptLayout %s" % LAYOUT_COQ[op[1]])
+            ops.append("CorruptLayout %s" % layout_coq(op[1]))
         elif k == "lock":
             raise ValueError("histories with lock ops are judged by the oracle only")
         elif k == "file" and op[1] == "directory":
@@ -770,6 +825,9 @@ def run(ctx):
                                        "histories": len(cases)}
     ctx.assumptions += [
         "_parse is a deterministic function of the text (model: section variable syntax_ok; tree = text id)",
+        "start-up facts of the oracle (layout = PRAGMA table_info of a fresh database created by the same code, integer "
+        "last_hit, expired rows pruned) are judged only after a parse that certainly ran the once-per-process block on a "
+        "plain database file (no view named models, no lock held by the harness)",
         "the cache key is injective on texts (model: key = text id; anchored as sha256(text)): validated on every run by "
         "families of DIFFERENT texts that a tolerant key would merge (trailing blanks, CRLF/CR/LF and the other "
         "str.splitlines() separators, blank lines, BOM, case, inner blanks, non-ASCII/NFC-NFD, long common prefix), "
